@@ -430,6 +430,15 @@ func runC12(t *rapid.T) {
 					}
 				}
 			}
+			if first[names[i]] != i {
+				// RenameDuplicateColumns: "the column index appended to the
+				// column name" - the name followed by a decimal number
+				suffix := strings.TrimPrefix(n, names[i])
+				if _, err := strconv.ParseUint(suffix, 10, 32); !strings.HasPrefix(n, names[i]) || err != nil || strings.HasPrefix(suffix, "+") {
+					core.Violation(t, "C12:R2:odd-header-renamed-name", fmt.Sprintf("column %d: name %q is not %q followed by a number (header %q)", i, n, names[i], c.Names), tr)
+					return
+				}
+			}
 			if first[names[i]] == i && n != names[i] {
 				core.Violation(t, "C12:R2:odd-header-untouched-name-changed", fmt.Sprintf("column %d: name %q, header says %q (first occurrence, must be kept)", i, n, names[i]), tr)
 				return
